@@ -228,7 +228,8 @@ void *qfile_read(FILE *fp, size_t *nbytes) {
             break;
 
         if (c_count == 0) {
-            data = (char *) malloc(sizeof(char) * memsize);
+            // one more byte: the terminator of a read of exactly memsize bytes
+            data = (char *) malloc(sizeof(char) * (memsize + 1));
             if (data == NULL) {
                 DEBUG("Memory allocation failed.");
                 return NULL;
